@@ -347,10 +347,10 @@ CONFIGS = [
 
 
 def bounds(tier):
-    return {'V': 6 if tier == 'quick' else 9, 'S': 4 if tier == 'quick' else 7}
+    return {'V': 6 if tier == 'quick' else 8, 'S': 4 if tier == 'quick' else 6}
 
 
-def make_run(cfg, tier):
+def make_run(cfg, tier, pin=()):
     st, j, sc, ms, fmt, oracle, cmp = cfg
     b = bounds(tier)
     S = b['S'] if j > 1 else 0
@@ -361,7 +361,8 @@ def make_run(cfg, tier):
     def run():
         from vlib.engine import explore_choices
         return explore_choices(once, b['V'] + S,
-                               budget_s=170 if tier == 'quick' else 850)
+                               budget_s=170 if tier == 'quick' else 850,
+                               pin=pin)
     return run
 
 
@@ -369,10 +370,14 @@ def partitions(tier):
     parts = []
     parts.append({'name': 'tmpnames', 'kind': 'native', 'run': run_tmpnames,
                   'budget_s': 120})
+    import itertools
     for cfg in CONFIGS:
         st, j, sc, ms, fmt, oracle, cmp = cfg
-        parts.append({'name': f'{st}_j{j}_{sc}_{ms}_{fmt}_{oracle}_{cmp}',
-                      'kind': 'choices', 'run': make_run(cfg, tier),
+        npin = 3 if (tier != 'quick' and j > 1) else 0
+        for pin in itertools.product((0, 1), repeat=npin):
+          sfx = ('_p' + ''.join(map(str, pin))) if pin else ''
+          parts.append({'name': f'{st}_j{j}_{sc}_{ms}_{fmt}_{oracle}_{cmp}{sfx}',
+                      'kind': 'choices', 'run': make_run(cfg, tier, pin),
                       'budget_s': 170 if tier == 'quick' else 850,
                       'bounds': {'strategy': st, 'jobs': j, 'script': sc,
                                  'mutators': ms, 'format': fmt,
@@ -387,7 +392,7 @@ def replay(part, cex):
     if part == 'tmpnames':
         r = run_tmpnames()
         return r['exc']['msg'] if r['exc'] else None
-    st, j, sc, ms, fmt, oracle, cmp = part.split('_')
+    st, j, sc, ms, fmt, oracle, cmp = part.split('_')[:7]
     b = bounds(tier)
     try:
         r, _ = one_run(cex['bits'], st, int(j[1:]), sc, ms, fmt, oracle,
